@@ -861,7 +861,9 @@ var _ = late(func() {
 						}
 					}
 				}
+				unbindT := bindChanParams(w) // (g.awaitWake(t.C, c): the helper's timer parameter is this worker's t.C)
 				pa.Exits(w, ss(0))
+				unbindT()
 				if nw == 0 {
 					r.undecided("xsync.Group."+n+"|armed-at-wait", w.Pos(), "no wait on the timer found")
 				}
